@@ -43,7 +43,7 @@ fn text_of(id: &str) -> Option<(i64, String)> {
             let m = n;
             Some((m, match n % 6 {
                 1 => format!("{{ mark(id: {m}) }}"),
-                2 => format!("{{mark(id:{m})}}"),
+                2 => format!("  {{mark(id:{m})}}\t"),   // surrounding white space belongs to the text that is hashed
                 3 => format!("query {{ mark(id: {m}) }}"),
                 4 => format!("query Q{m} {{ mark(id: {m}) }}\n"),
                 5 => format!("# c\n{{ mark(id: {m}) }}"),
